@@ -128,7 +128,7 @@ static void advance(u64 byte, u64 k, u64 *line, u64 *col) {
 }
 
 /* action log of the rule queries */
-#define ALOG 8
+#define ALOG 4
 static u64 al_[2][ALOG][6]; static unsigned al_n[2], al_sel;
 void x_verif_act(u32 id, u64 byte, u64 line, u64 col, u64 size, u64 sum) {
   unsigned n = al_n[al_sel];
@@ -159,7 +159,13 @@ static void draw(void) {
     } }
 #endif
 #ifdef SETUP_ONE_READ
+  /* the first require of the set-up is served by its first read: reaches the same states (any window size e is reached with
+   * require(e) and a first read of e bytes) with fewer executions */
+#ifdef __CPROVER__
   ASSUME(T[0] >= sarg_[0]);
+#else
+  if (T[0] < sarg_[0]) T[0] = sarg_[0];
+#endif
 #endif
 #ifdef KF_EXCLUDE_D9
   /* D9: require() calls the reader once; excluded: every reader that returns less than both the request and the rest of the stream */
@@ -305,7 +311,7 @@ static void op(int q) {
     CHECK(s1.byte == s0.byte + k && s1.line == l && s1.col == c, "bump advances byte/line/column like a memory input");
     CHECK(s1.c == s0.c + k && s1.occ == s0.occ - k && s1.calls == s0.calls, "bump moves the cursor inside the window and reads nothing");
 #if !defined(KF_ONLY_D9) && (QSEL(Q_BUMP) || QSEL(Q_BUMP_IN_THIS_LINE) || QSEL(Q_BUMP_TO_NEXT_LINE))
-    REACH(k > 1 && s0.byte > 0 && s1.occ > 0, "bump inside the window");
+    REACH(k > 0 && s0.byte > 0 && s1.occ > 0, "bump inside the window");
     REACH(k > 0 && s1.occ == 0 && s0.c > 0, "bump to the end of the window");
 #if QSEL(Q_BUMP)
     REACH(k > 1 && s1.line > s0.line && s1.col > 1, "bump across a line ending");
@@ -325,7 +331,7 @@ static void op(int q) {
     CHECK(s2.occ >= MIN(MIN(a, maximum_), rem), "after discard, require(a) with a <= maximum delivers min(a, rest of the stream) bytes");
     OBS(s2.occ);
 #if !defined(KF_ONLY_D9) && QSEL(Q_DISCARD)
-    REACH(s0.c > 0 && s1.c == 0 && s0.occ > 1, "discard moved data");
+    REACH(s0.c > 0 && s1.c == 0 && s0.occ > 0, "discard moved data");
     REACH(s0.c > 0 && s1.c == s0.c, "discard left at most Chunk consumed bytes in place");
     REACH(s2.occ > s1.occ && s1.c == 0 && s0.c > 0, "refill after a discard that moved data");
 #endif
